@@ -35,7 +35,7 @@ META = dict(
     technique="exhaustive enumeration of a finite lattice (residual family x bounds x x_scale x start points) through "
               "least_squares with an instrumented residual; exact bound comparison; active-set enumeration as reference "
               "optimiser for linear residuals",
-    text="Every combination of 27 (thorough 44) residual functions (linear Ax-b incl. rank-deficient / zero-column / "
+    text="Every combination of 27 (thorough 46) residual functions (linear Ax-b incl. rank-deficient / zero-column / "
          "over-determined, separable quadratic, Rosenbrock-like), 6 (8) boxes (wide, shifted, tight 1e-6, one-sided 1e6), "
          "6 (8) x_scale settings (None, scalars, vectors, 'jac') and every start point of a per-axis decimal grid "
          "(inside, on each bound, outside) is run through the tree's least_squares. Each argument the residual ever "
